@@ -42,9 +42,33 @@ def groups_for_unit(unit_name):
     return [g for g in _groups() if fns & set(g['covers'])]
 
 
+class _CacheLock:
+    """checks may run side by side (16 cores): the shared cargo target directory of the oracles is used by one of them at a time
+    (cargo's own lock covers the compilation only, not the run of the binary it has just written)"""
+    def __init__(self, name):
+        os.makedirs(os.path.join(VERIF, '.cache'), exist_ok=True)
+        self.path = os.path.join(VERIF, '.cache', name + '.lock')
+
+    def __enter__(self):
+        import fcntl
+        self.fh = open(self.path, 'w')
+        fcntl.flock(self.fh, fcntl.LOCK_EX)
+        return self
+
+    def __exit__(self, *a):
+        import fcntl
+        fcntl.flock(self.fh, fcntl.LOCK_UN)
+        self.fh.close()
+
+
 def run_group(g):
     if g['file'] in _cache:
         return _cache[g['file']]
+    with _CacheLock('cex-target'):
+        return _run_group_locked(g)
+
+
+def _run_group_locked(g):
     d = tempfile.mkdtemp(prefix='jammdb-verif-cex-')
     try:
         for f in ('Cargo.toml', 'Cargo.lock'):
